@@ -110,6 +110,7 @@ func c19rRun(c c19rCase) (v vVerdict) {
 	}
 	defer stop()
 	sameCount, renumbered := false, false
+	duringStart := false
 	prevN, prevFirst := -1, 0
 	for i, r := range c.Rounds {
 		if r.Cols < 1 || r.Cols > 4 || r.Rows < 2 || r.Rows > 16 {
@@ -128,7 +129,32 @@ func c19rRun(c c19rCase) (v vVerdict) {
 		vTakeClientMessages()
 		name := "LANCEROSOURCE"
 		var ok bool
-		if err := sc.Start(&name, &ok); err != nil {
+		var serr error
+		if i%2 == 1 {
+			// another Configure request (other numbering) arrives while this Start is sampling the card: it must be refused
+			card.entered, card.release = make(chan struct{}), make(chan struct{})
+			entered, release := card.entered, card.release
+			done := make(chan error, 1)
+			go func() { done <- sc.Start(&name, &ok) }()
+			select {
+			case <-entered:
+				other := &LanceroSourceConfig{FiberMask: 0xffff, ActiveCards: []int{0}, CardDelay: []int{1}, FirstRow: r.FirstRow + 500, ChanSepColumns: r.SepCols + 64}
+				var okc2 bool
+				cerr := sc.ConfigureLanceroSource(other, &okc2)
+				close(release)
+				serr = <-done
+				if cerr == nil {
+					stop()
+					return vFailf("configure-accepted-while-starting", "round %d: a ConfigureLanceroSource request was accepted while a Start was sampling the card", i)
+				}
+				duringStart = true
+			case serr = <-done:
+				close(release)
+			}
+		} else {
+			serr = sc.Start(&name, &ok)
+		}
+		if err := serr; err != nil {
 			if r.SepCols != 0 && r.SepCols < r.Rows {
 				continue // a column separation smaller than the rows per column collides: refused by design
 			}
@@ -197,6 +223,9 @@ func c19rRun(c c19rCase) (v vVerdict) {
 	v.NonTrivial = sameCount && renumbered
 	if renumbered {
 		v.Classes = append(v.Classes, "restart-same-count-other-numbers")
+	}
+	if duringStart {
+		v.Classes = append(v.Classes, "configure-request-during-start")
 	}
 	return v
 }
